@@ -56,14 +56,15 @@ def big_scenarios(rng, tier):
 def run(tier, seed):
     rng = random.Random(seed)
     mc = datacheck.design_check(tier)
-    nwalk, depth = (700, 10) if tier == "quick" else (8000, 12)
-    ws = datacheck.walks(nwalk, depth, seed, cfg="cfg/Data_sim_buf.cfg")
+    nwalk, depth = (800, 12) if tier == "quick" else (8000, 12)
+    ws = datacheck.walks(nwalk, depth, seed, cfg="cfg/Nonblock_sim_buf.cfg", module="Nonblock_MC.tla")
     execs = []
+    V, D = datagen.NB_VARS, datagen.NB_DIMS
     for n, h in enumerate(ws):
-        tr = datagen.Translator(rng, flex=True, conv=True, modes=True)
-        execs.append({"x": "w%d" % n, "steps": datagen.fixture() + tr.steps(h)})
+        tr = datagen.Translator(rng, V, D, flex=True, conv=True, modes=True)
+        execs.append({"x": "w%d" % n, "steps": datagen.fixture(V, D) + tr.steps(h)})
     big = big_scenarios(rng, tier)
-    r1 = datacheck.run(PID, tier, seed, execs, mc)
+    r1 = datacheck.run(PID, tier, seed, execs, mc, header=datagen.header_for(V, D))
     r2 = datacheck.run(PID, tier, seed, big, mc, header=datagen.header_for(BIG_VARS, BIG_DIMS))
     cov = r1["coverage"]
     for k in ("traces_validated_against_impl", "evaluations", "distinct_nontrivial", "trace_states", "rejected_first_pass"):
@@ -82,4 +83,4 @@ def replay(path):
     import json
     r = json.load(open(path))
     big = r["exec"]["x"].startswith("big")
-    return datacheck.replay(PID, path, header=datagen.header_for(BIG_VARS, BIG_DIMS) if big else None)
+    return datacheck.replay(PID, path, header=datagen.header_for(BIG_VARS, BIG_DIMS) if big else datagen.header_for(datagen.NB_VARS, datagen.NB_DIMS))
